@@ -313,6 +313,12 @@ def c20_execute(trace, tier, res):
                     counters.hit("probe.exact_model_optimum")
             plans = [[[a.kind, list(a.target), a.name] for a in p]
                      for p in plans]
+            # adversarial variants: every action but the last one twice (a
+            # repeated action must be pure cost, never pay again)
+            for p in list(plans[:2]):
+                if len(p) >= 2:
+                    plans.append([a for x in p[:-1] for a in (x, x)]
+                                 + [p[-1]])
             trace["plans"] = plans
         res["nontrivial"] = bool(plans)
         best = None
